@@ -46,7 +46,11 @@ func TestVerifDriverC14(t *testing.T) {
 		return
 	}
 	defer sink.Close()
-	for round := 0; round < 40 && fails == 0; round++ {
+	nRounds := 40
+	if os.Getenv("VERIF_DRIVER_REASON") == "thorough" {
+		nRounds = 160 // thorough tier
+	}
+	for round := 0; round < nRounds && fails == 0; round++ {
 		proto := Compact
 		if round%2 == 1 {
 			proto = Binary
@@ -136,5 +140,5 @@ func TestVerifDriverC14(t *testing.T) {
 	if fails > 0 {
 		t.Fatalf("%d failures", fails)
 	}
-	fmt.Println("DRIVER-RESULT: ok C14: 40 rounds")
+	fmt.Printf("DRIVER-RESULT: ok C14: %d rounds\n", nRounds)
 }
